@@ -8,9 +8,9 @@ CONSTANTS
   MaxRows = 5
   Script = FALSE
   WithEnv = TRUE
-  Depth = 12
-  GenActs <- ActsAll
-  Shape <- ShapeAny
+  Depth = 8
+  GenActs <- ActsUpgrade
+  Shape <- ShapeUpgrade
 INIT GenInit
 NEXT GenNext
 CONSTRAINT Emit
